@@ -343,6 +343,21 @@ def wav_is_looped(file: IO[bytes]) -> bool:
         chunk.skip()
 
 
+def _write_verbatim(file: TextIO, kv: Keyvalues, indent: str) -> None:
+    """Write a keyvalues tree in the layout of :py:meth:`Keyvalues.serialise`, but without escaping text.
+
+    Soundscripts are read without escape sequences (by the game, and by :py:mod:`srctools.packlist`),
+    so an escaped backslash, quote or tab would come back as two characters.
+    """
+    if kv.has_children():
+        file.write(f'{indent}"{kv.real_name}"\n{indent}\t{{\n')
+        for child in kv:
+            _write_verbatim(file, child, indent + '\t')
+        file.write(f'{indent}\t}}\n')
+    else:
+        file.write(f'{indent}"{kv.real_name}" "{kv.value}"\n')
+
+
 @attrs.define(eq=False, init=False, repr=False)
 class Sound:
     """Represents a single soundscript."""
@@ -592,7 +607,7 @@ class Sound:
                     '\t\t\t' '{\n'
                 )
                 for kv in self.stack_start:
-                    kv.serialise(file, start_indent='\t\t\t')
+                    _write_verbatim(file, kv, '\t\t\t')
                 file.write('\t\t\t}\n')
             if self.stack_update:
                 file.write(
@@ -600,7 +615,7 @@ class Sound:
                     '\t\t\t' '{\n'
                 )
                 for kv in self.stack_update:
-                    kv.serialise(file, start_indent='\t\t\t')
+                    _write_verbatim(file, kv, '\t\t\t')
                 file.write('\t\t\t}\n')
             if self.stack_stop:
                 file.write(
@@ -608,7 +623,7 @@ class Sound:
                     '\t\t\t' '{\n'
                 )
                 for kv in self.stack_stop:
-                    kv.serialise(file, start_indent='\t\t\t')
+                    _write_verbatim(file, kv, '\t\t\t')
                 file.write('\t\t\t}\n')
             file.write('\t\t}\n')
         file.write('\t}\n')
